@@ -93,6 +93,8 @@ pub struct Emitted {
     /// rows of the secondary header lines of a block statement: (stmt, k) where k = 1..
     /// for ELSEIF conditions, CASE lines and the LOOP line of a bottom-tested DO
     pub extra_rows: HashMap<(StmtId, usize), u32>,
+    /// for every line that holds code: (row, first column, last column) of the code
+    pub code_lines: Vec<(u32, u32, u32)>,
     pub rows: u32,
 }
 
@@ -149,6 +151,19 @@ impl<'a> Emitter<'a> {
     }
 
     fn newline(&mut self) {
+        // the code portion of the line (string literals never contain an apostrophe)
+        let code = match self.cur.find('\'') {
+            Some(i) => &self.cur[..i],
+            None => &self.cur[..],
+        };
+        let trimmed_end = code.trim_end().len();
+        let lead = code.len() - code.trim_start().len();
+        if trimmed_end > lead {
+            let row = self.lines.len() as u32 + 1;
+            self.out
+                .code_lines
+                .push((row, lead as u32 + 1, trimmed_end as u32));
+        }
         let l = std::mem::take(&mut self.cur);
         self.lines.push(l);
         self.closed = false;
@@ -264,6 +279,7 @@ impl<'a> Emitter<'a> {
             Expr::Err => self.kw("ERR"),
             Expr::Eof(h) => format!("{}({})", self.kw("EOF"), h),
             Expr::Paren(x) => format!("({})", self.expr(x, false)),
+            Expr::LenOf(t) => format!("{}(\"{}\")", self.kw("LEN"), t),
         }
     }
 
@@ -733,6 +749,9 @@ pub fn emit(sc: &Scenario, layout: &Layout) -> Emitted {
         let mut t = format!("{} {}", e.kw(head), e.ident(&p.name));
         if !params.is_empty() {
             t.push_str(&format!(" ({})", params.join(", ")));
+        }
+        if p.is_static {
+            t.push_str(&format!(" {}", e.kw("STATIC")));
         }
         e.line(0, &t);
         if uses_subscript(&p.body) {
